@@ -33,6 +33,18 @@ def run(ctx, owned=OWNED, actions=None, extra=None):
     for ui, fam in enumerate(p["op_universes"]):
         uspec = (fam, N, "mpo", 1, ctx.seed, 10 + ui)
         hc.replay(ctx, list(o1) + hc.sample(o2, (p["d2_sample"] or 10 ** 9) // 2 if p["d2_sample"] else None, ctx.seed + 7 + ui) + list(osim), uspec, owned, id_offset=10 ** 6)
+    # ---- the objects MpHeap histories start from: public constructors and expanders (value, gauge flags, labels, later arithmetic)
+    from .. import constructors
+    from ..common import pmap
+    res = pmap(constructors.cases, [(ctx.seed, k) for k in range(12 if ctx.tier == "quick" else 48)], chunksize=1)
+    for st_, o in res:
+        if st_ != "ok":
+            raise MachineryError("constructor worker failed: " + o)
+        for c in o["cases"]:
+            ctx.case(fingerprint="ctor" + c, nontrivial=True)
+        for key, what, detail in o["viol"]:
+            if key.split(":")[0] in owned:
+                ctx.violation(key, what, detail)
     ctx.sample(hc.short(o2[len(o2) // 3]))
     ctx.sample(hc.short(d2[len(d2) // 2]))
     ctx.sample(hc.short(sim[0]))
